@@ -626,3 +626,30 @@ func verifLemma_C15_replaced_referrer_is_not_reported() {
 	}
 	verifrt.Assert(n == 1, "and-refers-to-its-new-member-once")
 }
+
+// ---- C38: the caller's value is isolated from the world (bounded shape) ----------------------
+// A relation feature with one tag (value symbolic) is added through the real AddFeature of
+// both mutable worlds; the caller then overwrites the tag's value in place, appends a tag and
+// changes the ID of the value it passed in: the world still returns the feature under its
+// original ID with the original tag value and without the extra tag.
+func verifHelper_C38_caller_edits(w MutableWorld, v string, other string) {
+	id := FromOSMRelationID(1)
+	r := &RelationFeature{RelationID: id, Tags: b6.Tags{{Key: "name", Value: b6.NewStringExpression(v)}}}
+	verifrt.Assert(w.AddFeature(r) == nil, "feature-added")
+	r.Tags[0].Value = b6.NewStringExpression(other)
+	r.AddTag(b6.Tag{Key: "extra", Value: b6.NewStringExpression(other)})
+	r.RelationID = FromOSMRelationID(2)
+	f := w.FindFeatureByID(id.FeatureID())
+	verifrt.Assert(f != nil, "still-found-under-its-id")
+	verifrt.Assert(f.Get("name").Value.String() == v, "in-place-edit-of-the-callers-value-is-not-visible")
+	verifrt.Assert(!f.Get("extra").IsValid(), "tag-appended-by-the-caller-is-not-visible")
+	verifrt.Assert(w.FindFeatureByID(FromOSMRelationID(2).FeatureID()) == nil, "id-change-by-the-caller-is-not-visible")
+}
+
+func verifLemma_C38_basic_world_isolates_the_caller(v string, other string) {
+	verifHelper_C38_caller_edits(NewBasicMutableWorld(), v, other)
+}
+
+func verifLemma_C38_overlay_world_isolates_the_caller(v string, other string) {
+	verifHelper_C38_caller_edits(NewMutableOverlayWorld(vListWorld{}), v, other)
+}
